@@ -1,6 +1,8 @@
 import FlowRecordProofs.Lemmas.Msgpack
 import FlowRecordProofs.Lemmas.Framing
 import FlowRecordProofs.Lemmas.MsgpackPrefix
+import FlowRecordProofs.Lemmas.StreamCut
+import FlowRecordProofs.Lemmas.StreamExample
 import FlowRecord.Model.Stream
 /-!
 C04 — a damaged stream yields an intact prefix, never altered records. Property theorems only.
@@ -101,3 +103,53 @@ theorem C04_inst :
 -- non-vacuity: a two-frame stream cut inside the second frame
 example : splitFrames 100 ((streamOf [[1, 2, 3], [4, 5]]).take 10) = ([[1, 2, 3]], [0, 0, 0]) := by decide
 example : IsPartialFrame [0, 0, 0] := Or.inl (by decide)
+
+/-- **The prefix theorem at the level of records.** Take ANY admissible history of records (as in
+    `C01_stream_roundtrip`: any number of records, any descriptors, nesting to any depth) written by a fresh writer,
+    and cut the byte stream at ANY position `k` (a crash while writing, a truncated copy). Then the reader, run over
+    the first `k` bytes, yields exactly the first `n` records written — same order, each with its own descriptor, field
+    for field the values written; never a record that was not written, never an altered or partly filled one — where
+    `n` is precisely the number of records whose frames lie completely inside the first `k` bytes (the output of the
+    first `n` records fits into `k` bytes, that of the first `n + 1` does not: no complete record is skipped). After
+    them the reader stops: cleanly (EOF) when the cut is at a frame boundary or inside a 4-byte length prefix, with
+    "incomplete input" when it is inside a frame body, with "not a record stream" when it is inside the header frame.
+    At or beyond the end of the stream all records come out and the end is clean. -/
+theorem C04_records_prefix (hashOf : Utf8.PyStr → List (Utf8.PyStr × Utf8.PyStr) → Nat) (o : PV) (os : List PV)
+    (st' : WState) (frames : List Bytes) (k : Nat)
+    (hw : writeAll WState.init (o :: os) = some (st', frames))
+    (hok : HistOK hashOf [] (o :: os)) (hsz : ∀ b ∈ frames, b.length < 4294967296) :
+    ∃ n e, n ≤ (o :: os).length ∧
+      readAll hashOf ((streamOf frames).take k) = (rvOfList ((o :: os).take n), e) ∧
+      (e = End.eof ∨ e = End.error .incomplete ∨ (e = End.notAStream ∧ n = 0 ∧ k < headerLen)) ∧
+      ((streamOf frames).length ≤ k → n = (o :: os).length ∧ e = End.eof) ∧
+      (0 < n → ∀ stn fn, writeAll WState.init ((o :: os).take n) = some (stn, fn) → (streamOf fn).length ≤ k) ∧
+      (n < (o :: os).length → ∀ stn fn, writeAll WState.init ((o :: os).take (n + 1)) = some (stn, fn) →
+        k < (streamOf fn).length) :=
+  readAll_cut hashOf o os st' frames k hw hok hsz
+
+/-- The same for a writer that is appending (header already written, any registry): frames after the header. -/
+theorem C04_records_prefix_continued (hashOf : Utf8.PyStr → List (Utf8.PyStr × Utf8.PyStr) → Nat) (objs : List PV)
+    (st st' : WState) (frames : List Bytes) (fuel k : Nat)
+    (hw : writeAll st objs = some (st', frames)) (hhdr : st.headerWritten = true)
+    (hok : HistOK hashOf st.registry objs) (hsz : ∀ b ∈ frames, b.length < 4294967296) :
+    ∃ n e, n ≤ objs.length ∧ (e = End.eof ∨ e = End.error .incomplete) ∧
+      readFramesH hashOf (fuel + frames.length + 1) st.registry ((streamOf frames).take k) =
+        (rvOfList (objs.take n), e) ∧
+      ((streamOf frames).length ≤ k → n = objs.length ∧ e = End.eof) ∧
+      (∃ stn fn, writeAll st (objs.take n) = some (stn, fn) ∧ (streamOf fn).length ≤ k) ∧
+      (n < objs.length → ∃ stn fn, writeAll st (objs.take (n + 1)) = some (stn, fn) ∧ k < (streamOf fn).length) :=
+  read_cut_writeAll hashOf objs st st' frames fuel k hw hhdr hok hsz
+
+/-- A stream cut inside its header frame is refused ("not a record stream"), for every cut position. -/
+theorem C04_header_cut (k : Nat) (hk : k < headerLen) : readHeader ((frameBytes magicBody).take k) = none :=
+  readHeader_cut k hk
+
+-- non-vacuity of C04_records_prefix: a concrete two-record history meets every hypothesis (see Lemmas/StreamExample)
+example : (writeAll WState.init [StreamExample.o1, StreamExample.o2]).isSome = true := by rfl
+example : ∀ st' frames, writeAll WState.init [StreamExample.o1, StreamExample.o2] = some (st', frames) →
+    (∀ b ∈ frames, b.length < 4294967296) →
+    ∃ n e, n ≤ 2 ∧ readAll StreamExample.h ((streamOf frames).take 80) =
+      (rvOfList ([StreamExample.o1, StreamExample.o2].take n), e) :=
+  fun st' frames hw hsz =>
+    let ⟨n, e, hn, hr, _⟩ := C04_records_prefix StreamExample.h _ _ st' frames 80 hw StreamExample.hist hsz
+    ⟨n, e, hn, hr⟩
